@@ -336,3 +336,177 @@ Proof.
     + repeat constructor; cbn; intuition discriminate.
     + rewrite Hio. intros k [<-|[<-|[]]]; reflexivity.
 Qed.
+
+(* ------------------------------------------------------------------ *)
+(* Explicit handles, continued (Avl/SessionMore.v). *)
+From Coq Require Import Permutation.
+From Stevia Require Import Avl.Master Avl.LinkSteps Avl.LinkInsert Avl.Session Avl.SessionFacts Avl.Capacity Avl.EndToEnd Avl.SessionMore.
+(* through a live handle exactly cap - n more entries fit, also when the buffer has spare records;
+   the spare records count after a re-open *)
+Theorem C07_session_fill_exact :
+  forall (bits : N) (s : st) (t : itree) (fr : list N) (term : N) (kvs : list (Z * Z)),
+  Inv bits s t fr term ->
+  LinkInsert.okbits bits ->
+  NoDup (map fst kvs) ->
+  (forall k : Z, In k (map fst kvs) -> sm_find (inorder t) k = None) ->
+  N.of_nat (length kvs) = cap s - size s ->
+  exists (s' : st) (slots : list N) (t' : itree) (fr' : list N) (term' : N),
+  insert_all_sess bits {| c_st := s; c_live := true |} kvs =
+  Ok ({| c_st := s'; c_live := true |}, map (fun i : N => RSlot (Some i)) slots) /\
+  run_sess bits {| c_st := s; c_live := true |} (Capacity.ins_ops kvs) =
+  map Ok (map (fun i : N => RSlot (Some i)) slots) /\
+  final_sess bits {| c_st := s; c_live := true |} (Capacity.ins_ops kvs) =
+  Ok {| c_st := s'; c_live := true |} /\
+  length slots = length kvs /\
+  Inv bits s' t' fr' term' /\
+  cap s' = cap s /\
+  length (nodes s') = length (nodes s) /\
+  size s' = cap s /\
+  is_full s' = true /\
+  (forall k : Z,
+  sm_find (inorder t') k =
+  match sm_find (inorder t) k with
+  | Some v => Some v
+  | None => sm_find kvs k
+  end) /\
+  (forall k v : Z, sm_find (inorder t) k = Some v -> sm_find (inorder t') k = Some v) /\
+  (forall k v : Z, In (k, v) kvs -> sm_find (inorder t') k = Some v) /\
+  NoDup (slots ++ idxs t) /\
+  Permutation.Permutation (idxs t') (slots ++ idxs t) /\
+  (forall k v : Z,
+  step_sess bits {| c_st := s'; c_live := true |} (OInsert k v) =
+  Ok ({| c_st := s'; c_live := true |}, RSlot None, t_log t' k)) /\
+  (forall k v : Z,
+  run_sess bits {| c_st := s; c_live := true |} (Capacity.ins_ops kvs ++ OInsert k v :: nil) =
+  map Ok (map (fun i : N => RSlot (Some i)) slots ++ RSlot None :: nil) /\
+  final_sess bits {| c_st := s; c_live := true |} (Capacity.ins_ops kvs ++ OInsert k v :: nil) =
+  Ok {| c_st := s'; c_live := true |}).
+Proof. exact fill_exact_sess. Qed.
+Print Assumptions C07_session_fill_exact.
+
+Theorem C07_session_fill_exact_spare :
+  forall (bits : N) (s : st) (t : itree) (fr : list N) (term : N) (kvs kvs2 : list (Z * Z)),
+  Inv bits s t fr term ->
+  LinkInsert.okbits bits ->
+  LinkSteps.sizecond bits s ->
+  cap s < nrec s ->
+  NoDup (map fst (kvs ++ kvs2)) ->
+  (forall k : Z, In k (map fst (kvs ++ kvs2)) -> sm_find (inorder t) k = None) ->
+  N.of_nat (length kvs) = cap s - size s ->
+  N.of_nat (length kvs2) = nrec s - cap s ->
+  exists
+  (s' : st) (slots : list N) (t' : itree) (fr' : list N) (term' : N) (s1 : st)
+  (fr1 : list N) (s2 : st) (slots2 : list N) (t2 : itree) (fr2 : list N) (term2 : N),
+  run_sess bits {| c_st := s; c_live := true |} (Capacity.ins_ops kvs) =
+  map Ok (map (fun i : N => RSlot (Some i)) slots) /\
+  final_sess bits {| c_st := s; c_live := true |} (Capacity.ins_ops kvs) =
+  Ok {| c_st := s'; c_live := true |} /\
+  length slots = length kvs /\
+  Inv bits s' t' fr' term' /\
+  cap s' = cap s /\
+  nrec s' = nrec s /\
+  size s' = cap s /\
+  size s' < nrec s' /\
+  is_full s' = true /\
+  (forall k v : Z,
+  step_sess bits {| c_st := s'; c_live := true |} (OInsert k v) =
+  Ok ({| c_st := s'; c_live := true |}, RSlot None, t_log t' k)) /\
+  step_sess bits {| c_st := s'; c_live := true |} OOpenMut =
+  Ok ({| c_st := s1; c_live := true |}, RUnit, nil) /\
+  Inv bits s1 t' fr1 term' /\
+  cap s1 = nrec s /\
+  is_full s1 = false /\
+  run_sess bits {| c_st := s1; c_live := true |} (Capacity.ins_ops kvs2) =
+  map Ok (map (fun i : N => RSlot (Some i)) slots2) /\
+  final_sess bits {| c_st := s1; c_live := true |} (Capacity.ins_ops kvs2) =
+  Ok {| c_st := s2; c_live := true |} /\
+  length slots2 = length kvs2 /\
+  Inv bits s2 t2 fr2 term2 /\
+  cap s2 = nrec s /\
+  size s2 = nrec s /\
+  is_full s2 = true /\
+  (forall k v : Z,
+  step_sess bits {| c_st := s2; c_live := true |} (OInsert k v) =
+  Ok ({| c_st := s2; c_live := true |}, RSlot None, t_log t2 k)) /\
+  run_sess bits {| c_st := s; c_live := true |}
+  (Capacity.ins_ops kvs ++ OOpenMut :: Capacity.ins_ops kvs2) =
+  map Ok
+  (map (fun i : N => RSlot (Some i)) slots ++ RUnit :: map (fun i : N => RSlot (Some i)) slots2).
+Proof. exact fill_exact_sess_spare. Qed.
+Print Assumptions C07_session_fill_exact_spare.
+
+Theorem C07_session_fresh_slot :
+  forall (bits : N) (s : st) (t : itree) (fr : list N) (term : N) (k v : Z)
+  (x' : sess) (new : N) (log : list Z),
+  Inv bits s t fr term ->
+  LinkInsert.okbits bits ->
+  step_sess bits {| c_st := s; c_live := true |} (OInsert k v) = Ok (x', RSlot (Some new), log) ->
+  c_live x' = true /\
+  cap (c_st x') = cap s /\
+  length (nodes (c_st x')) = length (nodes s) /\
+  ~ In new (idxs t) /\
+  (forall (k0 : Z) (slot : N) (v0 : Z), t_find t k0 = Some (slot, v0) -> slot <> new) /\
+  ((exists fr' : list N, fr = new :: fr') \/ fr = nil /\ new = Alloc.lseq bits s) /\
+  1 <= new /\
+  new <= cap s /\ (exists (fr' : list N) (term' : N), Inv bits (c_st x') (t_insert t new k v) fr' term').
+Proof. exact insert_fresh_slot_sess. Qed.
+Print Assumptions C07_session_fresh_slot.
+
+Theorem C07_session_released_slot_reused :
+  forall (bits : N) (s : st) (t : itree) (fr : list N) (term : N) (k : Z) (slot : N) (v : Z),
+  Inv bits s t fr term ->
+  LinkInsert.okbits bits ->
+  t_find t k = Some (slot, v) ->
+  exists (s' : st) (term' : N),
+  step_sess bits {| c_st := s; c_live := true |} (ORemove k) =
+  Ok ({| c_st := s'; c_live := true |}, RVal (Some v), t_log t k) /\
+  Inv bits s' (t_remove t k) (slot :: fr) term' /\
+  In slot (idxs t) /\
+  ~ In slot (idxs (t_remove t k)) /\
+  cap s' = cap s /\
+  size s' + 1 = size s /\
+  is_full s' = false /\
+  (forall k2 v2 : Z,
+  t_find (t_remove t k) k2 = None ->
+  exists (s2 : st) (term2 : N),
+  step_sess bits {| c_st := s'; c_live := true |} (OInsert k2 v2) =
+  Ok ({| c_st := s2; c_live := true |}, RSlot (Some slot), t_log (t_remove t k) k2) /\
+  Inv bits s2 (t_insert (t_remove t k) slot k2 v2) fr term2).
+Proof. exact released_slot_reused_sess. Qed.
+Print Assumptions C07_session_released_slot_reused.
+
+Theorem C07_session_fill_exact_keep :
+  forall (bits capacity nr : N) (ops : list op),
+  LinkInsert.okbits bits ->
+  capacity <= nr ->
+  capacity < 2 ^ bits ->
+  (bits <> 8 -> capacity + 1 < 2 ^ bits) ->
+  Forall keeps_handle ops ->
+  exists (s : st) (t : itree) (fr : list N) (term : N),
+  final_sess bits (init_sess capacity nr true) ops = Ok {| c_st := s; c_live := true |} /\
+  Inv bits s t fr term /\
+  cap s = capacity /\
+  nrec s = nr /\
+  size s <= capacity /\
+  (forall kvs : list (Z * Z),
+  NoDup (map fst kvs) ->
+  (forall k : Z, In k (map fst kvs) -> sm_find (inorder t) k = None) ->
+  N.of_nat (length kvs) = capacity - size s ->
+  exists (s' : st) (slots : list N) (t' : itree) (fr' : list N) (term' : N),
+  run_sess bits {| c_st := s; c_live := true |} (Capacity.ins_ops kvs) =
+  map Ok (map (fun i : N => RSlot (Some i)) slots) /\
+  final_sess bits (init_sess capacity nr true) (ops ++ Capacity.ins_ops kvs) =
+  Ok {| c_st := s'; c_live := true |} /\
+  length slots = length kvs /\
+  Inv bits s' t' fr' term' /\
+  cap s' = capacity /\
+  nrec s' = nr /\
+  size s' = capacity /\
+  is_full s' = true /\
+  (forall k v : Z,
+  step_sess bits {| c_st := s'; c_live := true |} (OInsert k v) =
+  Ok ({| c_st := s'; c_live := true |}, RSlot None, t_log t' k))).
+Proof. exact fill_exact_sess_keep. Qed.
+Print Assumptions C07_session_fill_exact_keep.
+
+Example C07_session_example := sess_keep_by_fill_theorem.
